@@ -58,8 +58,8 @@ CHECKS = {
             'accepted as the documented contract.', '3/C14'),
     'C15': ('property-based testing (Hypothesis): differential against an explicit loop over multi-indices and snapshots',
             'Generated data, mixed basis-function lists, add_one, single_core, second data set (Gram) and HOCUR settings; the '
-            'transformed data tensor is compared with the explicit product formula. Exploration, not proof.',
-            'HOCUR ranks >= m; ill-conditioned cases (singular-value ratios of an unfolding in (1e-13, 1e-4)) are discarded; failures of HOCUR on data with an exact zero are the known finding F28 (KNOWN-FINDING line, exit 0).', '3/C15'),
+            'transformed data tensor is compared with the explicit product formula; HOCUR on 5..64 modes (dense tensor not representable) is compared through single entries and rank-one contractions of the returned cores with the closed-form products. Exploration, not proof.',
+            'HOCUR ranks >= m; ill-conditioned cases (singular-value ratios of an unfolding in (1e-13, 1e-4); for many modes: below 1e-3, evaluated in closed form) are discarded; failures of HOCUR on data with an exact zero are the known finding F28 (KNOWN-FINDING line, exit 0).', '3/C15'),
     'C06': ('property-based testing (Hypothesis): model-based operation histories with shadow copies + exhaustive producer x layout x follow-up cross product',
             'Generated call histories (10..40 steps over a pool of live tensor trains, results fed back as operands, in-place and '
             'overwrite variants interleaved, rank-1 bonds / F-ordered / transposed-view cores) with a shadow of every live object '
@@ -102,9 +102,9 @@ CHECKS = {
     'C16': ('property-based testing (Hypothesis): differential against numpy.linalg.pinv of the explicit transformed data matrix; residual monotonicity for ARR',
             'Generated data (under-/over-determined, duplicated snapshots), scalar and product bases, thresholds chosen below the '
             'relevant singular-value ratios, regular and exactly singular Gram matrices, ARR guesses and sweep counts; checks '
-            'Xi == (y pinv(Psi))^T, fitted values of the kernel variant, residual descent / rank retention / untouched guess for ARR. '
+            'Xi == (y pinv(Psi))^T, fitted values of the kernel variant, residual descent / rank retention / untouched guess for ARR; on nearly coincident snapshots (singular-value ratio 2e-12 ... 1e-8, threshold 0) the residual bound 300 eps cond ||y|| of a backward-stable pseudoinverse. '
             'Exploration, not proof.',
-            'Trusts NumPy; guard bands on singular-value ratios (ill-conditioned cases are discarded, except in the dedicated moderately ill-conditioned ARR class with its own slack); residual comparisons carry the resolution eps*||Xi||*||Psi|| of the residual evaluation itself.', '3/C16'),
+            'Trusts NumPy; guard bands on singular-value ratios (ill-conditioned cases are discarded, except in the dedicated moderately ill-conditioned ARR class with its own slack and the nearly-coincident-snapshot class, which is judged by its residual only); residual comparisons carry the resolution eps*||Xi||*||Psi|| of the residual evaluation itself.', '3/C16'),
     'C17': ('property-based testing (Hypothesis): differential against matrix DMD (numpy svd/eig) with scale-free eigen-equations',
             'Generated low-rank snapshot tensors (TT-SVD, random gauge, pre-orthonormalised with flags off, rescaled by 10^k), exact '
             'and standard variants, thresholds; eigenvalue multisets, exact/projected mode equations, inputs untouched, consistent '
